@@ -866,6 +866,11 @@ ASM_FNS = [
     ("(fn [a b] [(< a b) (<= a b) (= a b) (not= a b) (> a b) (>= a b) (compare a b)])", ["1 2", "2 2", "\"a\" \"b\""], False),
     ("(fn [b] (def buf @\"\") (buffer/push buf b) (put buf 0 65) (string buf (length buf)))", ["\"xyz\"", "\"\""], False),
     ("(fn long-name-of-a-function-that-goes-on-and-on [] (+ 1 2))", [""], False),
+    # operands at the edges of the immediate fields of the instruction encoding
+    ("(fn [x] [(+ x -128) (+ x 127) (+ x -129) (+ x 128) (* x -128) (* x 127) (- x -128) (- x 127) (/ x -128)])", ["0", "1", "-3.5"], False),
+    ("(fn [x] [(= x -128) (= x 127) (< x -128) (> x 127) (<= x -128) (>= x 127) (not= x -128) (= x 128) (= x -129)])", ["-128", "127", "0"], False),
+    ("(fn [] [-32768 32767 -32769 32768 -128 127 -129 128 -1 0 255 256 65535 65536])", [""], False),
+    ("(fn [x] [(blshift x 0) (blshift x 31) (brshift x 127) (brushift x 1) (band x -128) (bor x 127)])", ["1", "-1", "255"], False),
 ]
 
 
@@ -980,7 +985,7 @@ def gen_plan(r, seed, tier):
     if gcmode != "default":
         knobs["gc"] = gcmode
     return {"property": "C09", "knobs": knobs, "flavour": flavour, "dict": dict_mode,
-            "restarts": restarts, "live_env": r.random() < 0.4, "items": items, "ops": ops,
+            "restarts": restarts, "live_env": r.random() < 0.4, "pad": r.choice([0, 0, 3, 9, 14, 17, 22, 30, 35, 47]), "items": items, "ops": ops,
             "asm": asm, "neg": neg, "mode": mode, "nocycles": nocycles}
 
 
@@ -1047,6 +1052,10 @@ def render_build(plan):
             L += ["  " + f for f in forms]
             L.append("  %s)" % expr)
     L.append("(defn build [k]")
+    # padding locals move the captured variables of the closure items to other frame slots
+    # (the on-stack environment encoding works on 32-slot words)
+    for i in range(plan.get("pad", 0)):
+        L.append("  (def pad%d %d)" % (i, i))
     for it in plan["items"]:
         if it["k"] == "graph":
             L.append("  (def item%d (build-graph))" % it["id"])
